@@ -98,7 +98,7 @@ class MDCPDPEnv(RL4COEnvBase):
         current_node = td["action"].unsqueeze(-1)
         current_depot = td["current_depot"]
 
-        num_depot = td["capacity"].shape[-1]
+        num_depot = td["current_length"].shape[-1]  # one entry per depot (capacity may have a single column)
         num_loc = td["locs"].shape[-2] - num_depot  # no depot
         pd_split_idx = num_loc // 2 + num_depot
 
@@ -165,7 +165,10 @@ class MDCPDPEnv(RL4COEnvBase):
         action_mask = available & to_deliver
 
         # If reach the capacity, only delivery is available
-        current_capacity = td["capacity"].gather(-1, current_depot)
+        capacity = td["capacity"]
+        if capacity.shape[-1] == 1:
+            capacity = capacity.expand(*capacity.shape[:-1], num_depot)
+        current_capacity = capacity.gather(-1, current_depot)
         capacity_flag = current_carry >= current_capacity
         action_mask[
             ..., num_depot:pd_split_idx
@@ -362,7 +365,7 @@ class MDCPDPEnv(RL4COEnvBase):
                 note that the last city back to depot is not included here
         """
         # Check the validity of the actions
-        num_depot = td["capacity"].shape[-1]
+        num_depot = td["current_length"].shape[-1]
         num_loc = td["locs"].shape[-2] - num_depot  # except depot
 
         # Append the last depot to the end of the actions
